@@ -122,11 +122,12 @@ def apply(st, op, checks=('C16', 'C17')):
         elif kind == 'save_point':
             x = _arr(op['x'])
             r = _arr(op['r'])
+            jac0, jev0 = _jac_snapshot(M)
             M.save_point(x, r, op['nsamples'], op['eval_num'], x_in_abs_coords=True)
             obj = st.F(r, x)
             cur = st.saved
             if cur is None or obj <= cur['obj'] or (math.isnan(cur['obj']) and not math.isnan(obj)):
-                st.saved = dict(x=x.copy(), r=r.copy(), obj=obj, ns=op['nsamples'], ev=op['eval_num'])
+                st.saved = dict(x=x.copy(), r=r.copy(), obj=obj, ns=op['nsamples'], ev=op['eval_num'], jac=jac0, jev=jev0)
         elif kind == 'save_incumbent':
             # exactly what Controller.soft_restart does: the residuals handed over are a VIEW of the model's own table
             kk = int(M.kopt)
@@ -136,11 +137,12 @@ def apply(st, op, checks=('C16', 'C17')):
             ev = int(M.eval_num[kk])
             rcopy = np.array(r, dtype=float, copy=True)
             xcopy = np.array(x, dtype=float, copy=True)
+            jac0, jev0 = _jac_snapshot(M)
             M.save_point(x, r, ns, ev, x_in_abs_coords=True)
             obj = st.F(rcopy, xcopy)
             cur = st.saved
             if cur is None or obj <= cur['obj'] or (math.isnan(cur['obj']) and not math.isnan(obj)):
-                st.saved = dict(x=xcopy, r=rcopy, obj=obj, ns=ns, ev=ev)
+                st.saved = dict(x=xcopy, r=rcopy, obj=obj, ns=ns, ev=ev, jac=jac0, jev=jev0)
         elif kind == 'interpolate':
             ok = M.interpolate_mini_models_svd(make_full_rank=bool(op.get('make_full_rank')) and M.npt() < M.n() + 1)[0]
             if 'C16' in checks and ok and not op.get('make_full_rank'):
@@ -169,6 +171,13 @@ def apply(st, op, checks=('C16', 'C17')):
             # stale-factorisation trap: every mutation must invalidate the cached factorisation
             out += check_lagrange(st, site)
     return out
+
+
+def _jac_snapshot(M):
+    """What save_point is documented to store with the point: the model Jacobian and the evaluation numbers it was built from."""
+    jac = None if M.model_jac is None else np.array(M.model_jac, dtype=float, copy=True)
+    jev = None if M.model_jac_eval_nums is None else np.array(M.model_jac_eval_nums, copy=True)
+    return jac, jev
 
 
 def _all_finite(st):
@@ -275,6 +284,10 @@ def check_bookkeeping(st, site, kopt_before):
             else:
                 if not np.array_equal(np.asarray(r, dtype=float), st.saved['r'], equal_nan=True):
                     out.append(V('C17', 'saved_residuals_changed', site, 'the saved point is returned with residuals %r, it was saved with %r' % (np.asarray(r).tolist()[:3], st.saved['r'].tolist()[:3])))
+                if st.saved.get('jac') is not None and jac is not None and not np.array_equal(np.asarray(jac, dtype=float), st.saved['jac'], equal_nan=True):
+                    out.append(V('C17', 'saved_jacobian_changed', site, 'the saved point is returned with another Jacobian than the one stored with it (max diff %.3e)' % float(np.nanmax(np.abs(np.asarray(jac, dtype=float) - st.saved['jac'])))))
+                if (st.saved.get('jev') is None) != (jev is None) or (jev is not None and not np.array_equal(np.asarray(jev), st.saved['jev'])):
+                    out.append(V('C17', 'saved_jacobian_points_changed', site, 'the saved point is returned with other Jacobian evaluation numbers than stored'))
                 if int(ev) != int(st.saved['ev']) or int(ns) != int(st.saved['ns']) or not np.array_equal(np.asarray(x), st.saved['x']):
                     out.append(V('C17', 'final_tuple_inconsistent', site, 'saved point returned with eval_num=%r nsamples=%r (saved %r, %r)' % (ev, ns, st.saved['ev'], st.saved['ns'])))
     return out
@@ -447,6 +460,8 @@ def gen_example(rnd, data_faults, checks, max_steps=50):
     rules = ['change_point', 'swap_points', 'shift_base', 'add_new_point']
     if 'C17' in checks:
         rules += ['add_new_sample', 'save_point', 'save_incumbent']
+        if 'C16' not in checks:
+            rules += ['interpolate']      # only so that the Jacobian stored with a saved point differs from later ones
     if 'C16' in checks:
         rules += ['interpolate', 'factorise']
     weights = dict((r, rnd.choice([0.2, 1.0, 1.0, 3.0])) for r in rules)
